@@ -174,76 +174,7 @@ def input_provenance(repo, tier):
     def P(oid, ok, why, rel):
         obls.append(ground_obligation(oid, bool(ok), why, rel, definite=False))
 
-    def site(rel, qual, call_pred, label, sources=(), attr_sources=(), want_atoms=()):
-        m = loader.module(rel, repo)
-        short = rel.split("/")[-1]
-        oid = f"C17/{short}::{qual}/call-site#{label}"
-        fn = m.functions.get(qual)
-        if fn is None:
-            return P(oid, False, f"{qual} missing", rel)
-        calls = [c for c in ast.walk(fn) if isinstance(c, ast.Call) and call_pred(c)]
-        if len(calls) != 1 or not calls[0].args:
-            return P(oid, False, f"{len(calls)} matching call(s)", rel)
-        pv = Prov(fn, sources, attr_sources)
-        pv.run(calls[0].args[0])
-        missing = [a for a in want_atoms if not any(x.startswith(a) for x in pv.atoms)]
-        P(oid, not pv.problems and not missing, f"from {sorted(set(pv.atoms))}" + (f"; problems: {pv.problems}" if pv.problems else "")
-          + (f"; missing source {missing}" if missing else ""), rel)
-        fns.append(dict(m.fn_info(qual), obligations=1))
-
-    def feed_of(cls):
-        def pred(c):
-            return isinstance(c.func, ast.Attribute) and c.func.attr == "feed"
-        return pred
-
-    site(HTML, "read_html", feed_of(HCLS), "parser-is-fed-the-decoded-document-unmodified", want_atoms=("param file_like",))
-    site(MSG, "_html_to_text", feed_of(HCLS), "parser-is-fed-the-body-unmodified", want_atoms=("param html_text",))
-    site(EPUB, "_extract_chapter", feed_of(ECLS), "parser-is-fed-the-content-document-unmodified", want_atoms=("param ctx",))
-    site(MHTML, "read_mhtml", lambda c: dotted(c.func) == "read_html", "read_html-gets-the-html-part-unmodified",
-         sources=("_extract_from_mhtml",), want_atoms=("source _extract_from_mhtml", "param file_like"))
-
-    # the converter never hands the markup itself back as "text" (e.g. from an except-branch fallback): its parameter is
-    # used for nothing but feeding the parser
-    m = loader.module(MSG, repo)
-    fn = m.functions.get("_html_to_text")
-    oid = "C17/msg_email_extractor.py::_html_to_text/call-site#the-markup-itself-is-never-returned-as-text"
-    if fn is None or not fn.args.args:
-        P(oid, False, "_html_to_text missing", MSG)
-    else:
-        param = fn.args.args[0].arg
-        feeds = [c for c in ast.walk(fn) if isinstance(c, ast.Call) and isinstance(c.func, ast.Attribute) and c.func.attr == "feed"]
-        fed = {id(a) for c in feeds for a in c.args}
-        other = sorted(f"line {n.lineno}" for n in ast.walk(fn) if isinstance(n, ast.Name) and n.id == param and id(n) not in fed)
-        P(oid, len(feeds) == 1 and not other, f"`{param}` is also used at {other}" if other else "only use: parser.feed", MSG)
-
-    # MSG routing: `if _looks_like_html(B): body_plain = _html_to_text(B)` with B the message body itself
-    m = loader.module(MSG, repo)
-    fn = m.functions.get("read_msg_format_mail")
-    oid = "C17/msg_email_extractor.py::read_msg_format_mail/call-site#html-body-is-routed-through-_html_to_text"
-    if fn is None:
-        P(oid, False, "read_msg_format_mail missing", MSG)
-    else:
-        convs = _calls(fn, "_html_to_text")
-        ok, why = False, f"{len(convs)} _html_to_text call(s)"
-        if len(convs) == 1 and len(convs[0].args) == 1:
-            pv = Prov(fn, attr_sources=("msg.body",))
-            pv.run(convs[0].args[0])
-            par = {c: p for p in ast.walk(fn) for c in ast.iter_child_nodes(p)}
-            asg = par.get(convs[0])
-            iff = par.get(asg) if isinstance(asg, ast.Assign) else None
-            tgt = asg.targets[0].id if isinstance(asg, ast.Assign) and len(asg.targets) == 1 and isinstance(asg.targets[0], ast.Name) else None
-            test_ok = isinstance(iff, ast.If) and asg in iff.body and isinstance(iff.test, ast.Call) and dotted(iff.test.func) == "_looks_like_html" \
-                and len(iff.test.args) == 1 and ast.unparse(iff.test.args[0]) == ast.unparse(convs[0].args[0])
-            # the converted text is what the result carries as body_plain, and nothing re-assigns it afterwards
-            kws = [k for c in ast.walk(fn) if isinstance(c, ast.Call) and dotted(c.func) == "EmailContent" for k in c.keywords if k.arg == "body_plain"]
-            stores = [n for n in ast.walk(fn) if isinstance(n, ast.Name) and n.id == tgt and isinstance(n.ctx, ast.Store)] if tgt else []
-            in_if = [n for n in stores if isinstance(iff, ast.If) and any(n is x for x in ast.walk(iff))]
-            flow_ok = tgt is not None and len(kws) == 1 and isinstance(kws[0].value, ast.Name) and kws[0].value.id == tgt and len(stores) == len(in_if) == 2
-            ok = not pv.problems and any(a == "attribute msg.body" for a in pv.atoms) and test_ok and flow_ok \
-                and m.functions.get("_looks_like_html") is not None
-            why = f"body from {sorted(set(pv.atoms))}; problems {pv.problems}; guarded by _looks_like_html(same value): {test_ok}; reaches body_plain unchanged: {flow_ok}"
-        P(oid, ok, why, MSG)
-        fns.append(dict(m.fn_info("read_msg_format_mail"), obligations=1))
+    # (round 3) the MSG routing statement is under a symbolic contract: contracts/C17_glue.py::read_msg_format_mail
     return {"obligations": obls, "functions": fns}
 
 
